@@ -138,3 +138,34 @@ func HarnessC15FloatValues() {
 	}
 	zzverif.Reached("c15-floatvalues-end")
 }
+
+// HarnessC15MapInts: integer keys and values of generic maps accept the same literal forms as
+// scalar integers (base prefixes, digit separators). The map text goes through text/scanner byte
+// by byte, so the literals are concrete probes here (the scalar parsers are covered for every
+// value by HarnessC15ParseStringInts).
+func HarnessC15MapInts() {
+	probes := []struct {
+		lit string
+		v   int64
+	}{{"1_000", 1000}, {"65_535", 65535}, {"0x1F", 31}, {"0b101", 5}, {"0o17", 15}, {"-42", -42}, {"-1_0", -10}, {"7", 7}}
+	p := probes[zzverif.Choose("probe", len(probes))]
+	if zzverif.Choose("where", 2) == 0 {
+		got, err := Map("k:"+p.lit, reflect.TypeOf(map[string]int64(nil)))
+		zzverif.Assert(err == nil, "C15 map[string]int64: an integer value in a legal literal form was rejected: "+p.lit)
+		if err == nil {
+			e := got.MapIndex(reflect.ValueOf("k"))
+			zzverif.Assert(got.Len() == 1 && e.IsValid() && e.Int() == p.v, "C15 map[string]int64: the parsed value is not the literal's value (digit separators or base prefix mishandled): "+p.lit)
+		}
+	} else {
+		got, err := Map(p.lit+":7", reflect.TypeOf(map[int64]int8(nil)))
+		zzverif.Assert(err == nil, "C15 map[int64]int8: an integer key in a legal literal form was rejected: "+p.lit)
+		if err == nil {
+			zzverif.Assert(got.Len() == 1, "C15 map[int64]int8: wrong number of entries")
+			it := got.MapRange()
+			if it.Next() {
+				zzverif.Assert(it.Key().Int() == p.v && it.Value().Int() == 7, "C15 map[int64]int8: the parsed key is not the literal's value: "+p.lit)
+			}
+		}
+	}
+	zzverif.Reached("c15-mapints-end")
+}
